@@ -91,12 +91,14 @@ def run_one(name, apply):
         if not bad:
             print(f"{name}: quiet on all {len(PROPS)} checks")
         else:
-            print(f"{name}: FALSE ALARM on {[b[0] for b in bad]}")
+            print(f"{name}: FALSE ALARM on {[(b[0], b[1]) for b in bad]}")
             seen = set()
             for p, rc, lines in bad:
                 for l in lines:
-                    k = l.split("replay=")[0] if l.startswith("VIOLATION") else l
-                    if k not in seen and not l.startswith("VIOLATION"):
+                    if l.startswith("VIOLATION"):
+                        continue
+                    k = l.replace("property=" + p, "")[:160]
+                    if k not in seen and len(seen) < 6:
                         seen.add(k)
                         print("     ", p, rc, l[:300])
     finally:
